@@ -121,7 +121,7 @@ def gen_cases(tier, seed):
         "ag_form": _balanced(rng, ["none"] * 5 + ["tuple"] * 3 + ["dict-full", "dict-partial"], n),
         "prune": _balanced(rng, ["nwchem", "sg1", "treutler", "none"] if quick else
                            ["nwchem"] * 3 + ["sg1"] * 2 + ["treutler"] * 2 + ["none"] * 2 + ["sgx"], n),
-        "lmax": _balanced(rng, [10] * 35 + [3] * 6 + [6] * 6 + [0] * 3, n),
+        "lmax": _balanced(rng, [10] * 32 + [3] * 6 + [6] * 6 + [1] * 2 + [2] * 2 + [0] * 2, n),
         "alignment": _balanced(rng, [8] * 5 + [1, 0, 16, 13, 64], n),
         "sort": _balanced(rng, [True] * 4 + [False], n),
         "non0tab": _balanced(rng, [False] * 3 + [True], n),
@@ -253,6 +253,19 @@ def _build_cider(rec, mol, cfg, bk, level=None, drop_default=False, report=True)
     """Build through the advertised interface.  Returns (grids or None, path description)."""
     from ciderpress.pyscf.gen_cider_grid import CiderGrids
     L = int(cfg["lmax"])
+    if L < 1:
+        # l = 1 harmonics are always tabulated (they carry the grid directions), so lmax < 1 is not a usable
+        # setting: it must be rejected with an exception before the C tabulation is reached (ASan worker).
+        try:
+            g = _apply(CiderGrids(mol, lmax=L), cfg, level, drop_default)
+            g.build(**bk)
+            raised = False
+        except Exception as e:  # noqa: BLE001
+            raised = True
+            rec.tag("lmax_lt_1_rejected_with", type(e).__name__)
+        if report:
+            rec.require("lmax_below_1_rejected", raised, mechanism="CiderGrids:accepts-lmax<1")
+        return None, "rejected"
     try:
         g = _apply(CiderGrids(mol, lmax=L), cfg, level, drop_default)
         g.build(**bk)
